@@ -133,6 +133,8 @@ class MultiCtl(BaseMultiCtl, Module):
             return
         for i, to_mod in enumerate(self.out_links):
             mapping = self.mappings.values[i]
+            if to_mod == -1 or mapping.controller == 0:
+                continue  # freed link slot, or no destination controller mapped
             mod = self.parent.modules[to_mod]
             ctl = list(mod.controllers.values())[mapping.controller - 1]
             vt = ctl.value_type
@@ -240,7 +242,7 @@ class MultiCtl(BaseMultiCtl, Module):
             else:
                 mapmin, mapmax = 0, 0x8000
                 gains.add(256)
-            mappings.append((mapmin, mapmax, ctl.number))
+            mappings.append((mapmin, mapmax, ctl.number, 0, 0, 0, 0, 0))
             mods.append(project.modules[mod.index])
         if len(mods) != len(set(mods)):
             raise MappingError(
